@@ -131,6 +131,8 @@ func handTargets() []target {
 	add("err/lambda-trace", "((lambda (a) ((lambda (b) (car b)) a)) 5)")
 	add("err/handler", "(handler-bind ([condition (lambda (c &rest d) (list c d))]) (car 5))")
 	add("err/rethrow", "(handler-bind ([condition (lambda (c &rest d) (rethrow))]) (defun q () (error 'e1 \"m\" (sorted-map 'b 1 'a 2))) (q))")
+	add("err/not-a-function", "(handler-bind ([condition (lambda (c &rest d) d)]) ((car '(5)) 1))")
+	add("err/not-a-function-map", "((sorted-map 'b 1 'a 2) 1)")
 	add("err/arity", "(defun two (a b) a) (two 1)")
 	add("gensym", "(list (gensym) (gensym) (gensym))")
 	add("gensym-macro", "(defmacro sw (a b) (let ([t (gensym)]) (quasiquote (let ([(unquote t) (unquote a)]) (list (unquote b) (unquote t)))))) (macroexpand '(sw 1 2))")
